@@ -449,7 +449,7 @@ def ofE3 : E3 → R3
   | .bmore b l => .bmore (ofE3 b) (ofE3 l)
   | .bmoreK op v s l => .bmoreK op (ofE3 v) (ofE3 s) (ofE3 l)
 
-/-- number of redundant pairs of a rendering -/
+/-- number of `par`s of a rendering (explicit pairs: the redundant ones and those standing in for a required pair) -/
 def R3.pars : R3 → Nat
   | .atom .. => 0
   | .text _ _ a => a.pars
